@@ -113,6 +113,7 @@ pub fn catalogue() -> Vec<Deviation> {
         dev!("opt_overrides_self", |c| { o(c).overrides.push("o".into()); }),
         dev!("opt_parser_u8", |c| { o(c).parser = Vp::U8; }),
         dev!("opt_parser_u8_new", |c| { o(c).parser = Vp::U8New; }),
+        dev!("opt_parser_pathbuf", |c| { o(c).parser = Vp::PathBuf; }),
         dev!("opt_possible_values", |c| {
             o(c).parser = Vp::Pv(vec![
                 PvSpec { name: "v".into(), ..Default::default() },
